@@ -432,6 +432,7 @@ def run(c):
         pools = fut.result()
     # shared decoded messages: the codec generator's valid inputs
     pools["fmsg"]["pool"] = [g for g in gen if g["g"] and g["ok"] and TBL[g["m"]]["family"] != "ENV"]
+    if "f15s" in pools: pools["f15s"]["pool"] = pools["f15"]["pool"]      # shared parsed QoS values: family f15's cases
     del gen
     for f in fams:
         c.cov["states"] += pools[f.name]["states"]; c.cov["transitions"] += pools[f.name]["transitions"]
